@@ -12,6 +12,7 @@ package main
 import (
 	"fmt"
 	"go/ast"
+	"go/constant"
 	"go/token"
 	"go/types"
 	"strings"
@@ -156,6 +157,7 @@ func checkC10(w *World, r *Report) {
 	checkBodiesRenderInPlace(w, r)
 	checkOwnBlocksRegistered(w, r)
 	checkExtendsSearchedEverywhere(w, r)
+	checkNestedConstructsRestoreState(w, r)
 	checkResolvesThroughLoad(w, r, "R10.5", []string{"ExtendsNode"}, "a parent remembered from an earlier render is used although the parent name is an expression (or the engine would reload it): the child is laid out in the wrong parent")
 
 	// ---- R10.2
@@ -986,4 +988,116 @@ func checkExtendsSearchedEverywhere(w *World, r *Report) {
 		})
 	}
 	r.floor("searches for the extends tag among nodes", n, 1)
+}
+
+// checkNestedConstructsRestoreState — R10.11: a function that can be entered again while it is
+// running (a tag handler that parses a body in which the same tag may stand; a Render that renders
+// children of its own kind) does not bracket the nested work with two different constants written
+// to the same field of the shared parser / context.  `p.inBlock = true; body(); p.inBlock = false`
+// is right for the outermost activation only: when the inner one returns it writes false while the
+// outer one is still in its body, so what follows a nested block inside a block is read as if it
+// stood outside every block.  Bracketing by saving and restoring the previous value, or by
+// counting, is what nesting needs; both are accepted.
+func checkNestedConstructsRestoreState(w *World, r *Report) {
+	g := w.callgraph()
+	reachMemo := map[*ssa.Function]map[*ssa.Function]bool{}
+	reaches := func(from, to *ssa.Function) bool {
+		m, ok := reachMemo[from]
+		if !ok {
+			m = w.reachableFrom([]*ssa.Function{from})
+			reachMemo[from] = m
+		}
+		return m[to]
+	}
+	n := 0
+	for _, fn := range w.pkgFuncs() {
+		// constant stores to fields of shared objects (anything not allocated here)
+		type cs struct {
+			st *ssa.Store
+			fa *ssa.FieldAddr
+			c  *ssa.Const
+		}
+		var stores []cs
+		instrsOf(fn, func(in ssa.Instruction) {
+			st, ok := in.(*ssa.Store)
+			if !ok {
+				return
+			}
+			fa, ok := st.Addr.(*ssa.FieldAddr)
+			if !ok {
+				return
+			}
+			c, ok := st.Val.(*ssa.Const)
+			if !ok || c.Value == nil {
+				return
+			}
+			if _, local := origin(fa.X).(*ssa.Alloc); local {
+				return
+			}
+			stores = append(stores, cs{st, fa, c})
+		})
+		if len(stores) < 2 {
+			continue
+		}
+		// calls through which fn can be entered again
+		var nested []ssa.Instruction
+		if node := g.Nodes[fn]; node != nil {
+			seenSite := map[ssa.Instruction]bool{}
+			for _, e := range node.Out {
+				if e.Site == nil || seenSite[e.Site] || e.Callee.Func == nil {
+					continue
+				}
+				if _, isDefer := e.Site.(*ssa.Defer); isDefer {
+					continue
+				}
+				if e.Callee.Func == fn || reaches(e.Callee.Func, fn) {
+					seenSite[e.Site] = true
+					nested = append(nested, e.Site)
+				}
+			}
+		}
+		if len(nested) == 0 {
+			continue
+		}
+		after := func(a, b ssa.Instruction) bool { // b can run after a
+			if a.Block() == b.Block() {
+				if instrIndex(a) < instrIndex(b) {
+					return true
+				}
+				// same block, b first: only around a loop
+				for _, s := range a.Block().Succs {
+					if blockReaches(s, b.Block()) {
+						return true
+					}
+				}
+				return false
+			}
+			return blockReaches(a.Block(), b.Block())
+		}
+		for _, s2 := range stores {
+			for _, s1 := range stores {
+				if s1.st == s2.st || s1.fa.Field != s2.fa.Field || !sameValue(origin(s1.fa.X), origin(s2.fa.X)) {
+					continue
+				}
+				if constant.Compare(s1.c.Value, token.EQL, s2.c.Value) {
+					continue
+				}
+				var via ssa.Instruction
+				for _, c := range nested {
+					if after(s1.st, c) && after(c, s2.st) && !after(s2.st, s1.st) {
+						via = c
+						break
+					}
+				}
+				if via == nil {
+					continue
+				}
+				n++
+				tn, f := fieldOfAddr(s2.fa)
+				construct := fmt.Sprintf("%s.%s set to %s around nested work and to %s after it", tn, f, s1.c.Value.ExactString(), s2.c.Value.ExactString())
+				r.bad("R10.11", ssaName(fn), construct, w.posOf(s2.st.Pos()), fmt.Sprintf("the function can be entered again through the call at %s while the field is set; the inner activation's exit writes %s while the outer one is still inside its body, so whatever follows a nested construct is handled as if it stood outside — save and restore the previous value instead", w.posOf(via.Pos()), s2.c.Value.ExactString()))
+			}
+		}
+	}
+	r.Counts["constant brackets around re-entrant work"] = n
 }
